@@ -8,6 +8,7 @@ CONSTANTS
   TableMethods <- Methods
   TableAbsorbs <- Absorbs
   Emit = TRUE
+  PreFix = FALSE
 INVARIANT AcceptedReturns
 INVARIANT TableSound
 CHECK_DEADLOCK FALSE
